@@ -11,6 +11,7 @@ the library's string).
 from hypothesis import strategies as st
 
 from vf.core import hyp, pool
+from vf.core.lib import library_exceptions_are_findings as _guard
 from vf.core.stats import Finding, Stats
 from vf.props import c06
 from vf.ref import ja3 as J
@@ -148,6 +149,7 @@ def _edited_in_place(S, wire):
 _edited_in_place.count = 0
 
 
+@_guard
 def check_case(case):
     if case.get('fresh_process') and not __import__('os').environ.get('VERIF_C15_CHILD'):
         # a finding of the server-first history is replayed in a fresh interpreter as well
